@@ -703,6 +703,13 @@ def check_primitives(prog):
     divs = [v for v, n in r.consts(ast.FloorDiv)] + [1 << v for v, n in r.consts(ast.RShift)]
     ors = [v for v, n in r.consts(ast.BitOr)]
     ands = [v + 1 for v, n in r.consts(ast.BitAnd)]
+    # value, digit = divmod(value, K): quotient and remainder of the same K in one call
+    for x in ast.walk(r.node):
+        if isinstance(x, ast.Call) and isinstance(x.func, ast.Name) and x.func.id == "divmod" and len(x.args) == 2:
+            okk, k = r.fold(x.args[1])
+            if okk and isinstance(k, int):
+                mods.append(k)
+                divs.append(k)
     digit_radix = (mods + ands)
     if not digit_radix or not divs:
         raise AnalysisError("encodeLength: modulus / divisor not recognisable")
